@@ -1,10 +1,11 @@
 package main
 
 import (
-	"go/constant"
 	"fmt"
+	"go/constant"
 	"go/token"
 	"go/types"
+	"sort"
 	"strings"
 
 	"golang.org/x/tools/go/ssa"
@@ -44,12 +45,12 @@ var effectFreePrefixes = []string{
 
 // decodeInto: functions whose only effect is to overwrite the object a pointer argument refers to.
 var decodeInto = map[string]int{
-	"encoding/json.Unmarshal":                   1,
-	"github.com/gogo/protobuf/proto.Unmarshal":  1,
+	"encoding/json.Unmarshal":                    1,
+	"github.com/gogo/protobuf/proto.Unmarshal":   1,
 	"github.com/golang/protobuf/proto.Unmarshal": 1,
-	"(*time.Time).UnmarshalBinary":              0,
-	"(*time.Time).UnmarshalJSON":                0,
-	"(*math/big.Int).SetString":                 0,
+	"(*time.Time).UnmarshalBinary":               0,
+	"(*time.Time).UnmarshalJSON":                 0,
+	"(*math/big.Int).SetString":                  0,
 }
 
 func isEffectFree(full string) bool {
@@ -215,7 +216,12 @@ func (vc *VC) call(fr *Frame, st *State, ins ssa.Instruction, cc *ssa.CallCommon
 		con = fieldCon
 	}
 	if con == nil {
-		for _, ec := range vc.P.Externs[full] {
+		// contracts restricted to an argument type are tried before the unrestricted ones
+		exts := append([]*Contract{}, vc.P.Externs[full]...)
+		sort.SliceStable(exts, func(i, j int) bool {
+			return exts[i].Options["argtype"] != "" && exts[j].Options["argtype"] == ""
+		})
+		for _, ec := range exts {
 			if at := ec.Options["argtype"]; at != "" {
 				// argtype=IDX:TYPE restricts the contract to calls whose IDX-th argument has this static type
 				parts := strings.SplitN(at, ":", 2)
@@ -503,10 +509,11 @@ func resultNames(sig *types.Signature) []string {
 }
 
 // havocTarget makes one modifies target arbitrary in st.
-//   p.f      field f of the struct p points to
-//   *p       the whole object p points to
-//   s[*]     all elements of the backing array of slice s
-//   heap(T)  every object of type T (component), written heap(pkg.T)
+//
+//	p.f      field f of the struct p points to
+//	*p       the whole object p points to
+//	s[*]     all elements of the backing array of slice s
+//	heap(T)  every object of type T (component), written heap(pkg.T)
 func (vc *VC) havocTarget(env *SpecEnv, st *State, m *SExpr, con *Contract) {
 	defer func() {
 		if r := recover(); r != nil {
